@@ -38,6 +38,7 @@ func ruleC08(w *World, r *Report) {
 	r.Explanation = "R08.1 the crash obligations of C01 restricted to the flow-description and PDI parsers; R08.2 on every path of parseSDFFilter / parseApplicationID that returns an error no field of the PDR's application filter has been written, parsePDR tolerates exactly errBadFilterDesc, every error of the tokenizer's helpers reaches parseFlowDesc's error result and is mapped to errBadFilterDesc by the callers; " +
 		"R08.3 orientation: the core arm copies src→src/dst→dst and the access arm is its mirror (absolute table against the statement), the port work-around is symmetric, PFD-backed filters are copied verbatim under the direction predicate (access∧out ∨ core∧in) with no filter field written before the direction matched, the UE-address pre-fill picks dst for downlink and src for uplink; 'assigned'/'any' rewrite table of the xform closure; " +
 		"R08.4 handlePFDMgmtRequest: the previous table is saved before ResetAppPFDs, ResetAppPFDs installs a fresh map without touching the old one, it dominates every write, every rejecting exit restores the saved table and the accepting exit does not."
+	r.Explanation += " R08.5 on the request path pdr.appFilter is only refined field by field, never replaced wholesale (the UE address stored by parsePDI survives a malformed filter text)."
 	r.NotDecided = "that the filter means the text for every string of the grammar (round trip over an infinite language); net.ParseCIDR/strconv semantics"
 	sdf := w.Fn(P, "pfcpiface.(*pdr).parseSDFFilter")
 	app := w.Fn(P, "pfcpiface.(*pdr).parseApplicationID")
@@ -316,6 +317,7 @@ func ruleC08(w *World, r *Report) {
 	ruleC08Prefill(w, r, ppdi)
 	ruleC08Xform(w, r, flow)
 	ruleC08PFD(w, r)
+	ruleC08KeepUE(w, r)
 }
 
 var flowLeafRe = regexp.MustCompile(`ipFilterRule(\.[A-Za-z0-9_]+)+`)
@@ -800,4 +802,54 @@ func ruleC08PFD(w *World, r *Report) {
 		}
 		r.check(viaClosure, "R08.4", hn, "error exits use the roll-back reply", w.Pos(ret.Pos()), "closure call", "an error exit bypasses the roll-back")
 	}
+}
+
+// ruleC08KeepUE (R08.5): "malformed filter text is ignored" means the PDR keeps matching on what parsePDI
+// put into the filter before the text was looked at — the UE address and its mask. The filter of a pdr
+// is only ever refined field by field: no function replaces pdr.appFilter wholesale (a "reset" on the
+// error path turns a UE-specific PDR into one that matches every packet of the interface).
+func ruleC08KeepUE(w *World, r *Report) {
+	n := 0
+	for _, f := range w.Funcs {
+		fname := w.FuncName(f)
+		if strings.HasPrefix(fname, "test/") || strings.HasPrefix(fname, "pkg/") {
+			continue
+		}
+		// the request path: parsers, handlers, session bookkeeping (the traffic simulator builds its own PDRs from literals)
+		if pos := w.Pos(f.Pos()); !strings.Contains(pos, "parse_") && !strings.Contains(pos, "messages_") && !strings.Contains(pos, "session") && !strings.Contains(pos, "pfd.go") {
+			continue
+		}
+		allInstrs(f, func(i ssa.Instruction) {
+			st, ok := i.(*ssa.Store)
+			if !ok {
+				return
+			}
+			fa, ok := st.Addr.(*ssa.FieldAddr)
+			if !ok || fieldVar(fa) == nil || fieldVar(fa).Name() != "appFilter" {
+				return
+			}
+			if nt := namedOf(fa.X.Type()); nt == nil || nt.Obj().Name() != "pdr" {
+				return
+			}
+			n++
+			r.bad("R08.5", fname, "pdr.appFilter is refined field by field, never replaced", w.Pos(st.Pos()), "the whole application filter of a PDR is overwritten here: the UE address and mask that parsePDI stored before the filter text was parsed are lost, the PDR matches packets of every UE")
+		})
+	}
+	if n == 0 {
+		r.ok("R08.5", "pfcpiface", "no whole-struct store to pdr.appFilter", "-", "all writers store single fields")
+	}
+	// positive control: the field-level writers exist (the rule looks at the right struct)
+	m := 0
+	for _, f := range w.Funcs {
+		allInstrs(f, func(i ssa.Instruction) {
+			if st, ok := i.(*ssa.Store); ok {
+				if fa, ok := st.Addr.(*ssa.FieldAddr); ok && fieldVar(fa) != nil {
+					if inner, ok := fa.X.(*ssa.FieldAddr); ok && fieldVar(inner) != nil && fieldVar(inner).Name() == "appFilter" {
+						m++
+					}
+				}
+			}
+		})
+	}
+	r.floor("R08.5 field-level writers of pdr.appFilter", m, 4)
 }
